@@ -157,7 +157,9 @@ def check(run):
         closed_models(run)
     rng = random.Random(run.seed)
     cells = gen_cells(run)
-    scen = [dc.cell_scenario(c, rng) for c in cells]
+    scen = [dc.cell_scenario(c, rng, again=(run.tier == "thorough")) for c in cells]
+    if run.tier == "thorough":   # the same table with a DaemonSet / StatefulSet pod carrying the pod-level blockers
+        scen += [dc.cell_scenario(c, rng, again=True, variant=1) for c in cells]
     conds = gen_cond(run)
     scen += [dc.cond_scenario(b, i) for i, b in enumerate(conds)]
     scen += explorer(run, NEXPLORE[run.tier])
@@ -201,8 +203,8 @@ def check(run):
         if not fresh:
             raise vlib.InfraError(msg)
         run.notes.append(msg)   # a real-code violation was found as well: that verdict stands
-    ncell = sum(1 for sc in scen if sc["tags"]["kind"] == "cell")
-    nissued = sum(1 for sc in scen if sc["tags"]["kind"] == "cell" and sc["tags"]["issued"])
+    ncell = len(cells)
+    nissued = sum(1 for c in cells if c["issued"])
     run.extra_cov.update({"table_cells": ncell, "cells_model_issues": nissued, "cells_blocked_with_live_control": lively,
                           "cond_behaviours": len(conds), "explorer_scenarios": NEXPLORE[run.tier],
                           "guarded_candidates_by_method": dict(guarded),
